@@ -126,10 +126,14 @@ def opPopHandler (f : Fiber) : Signal × Fiber :=
   | none => (.panic, f)
   | some f' => (.ok, { f' with ip := f'.ip + 1 })
 
-/-- `Fiber::stack_unwind`: pick the innermost handler unless it belongs to a frame below
-`bottom_frame` (the frame count at which native code re-entered the interpreter); mark the fiber
-unwinding (`pause_unwind`), point the handler's frame at the catch offset and reset `stack_top` to
-`frame.stack_start + slot_depth`.  Frames are NOT truncated here (that is `finish_unwind`). -/
+/-- `Fiber::stack_unwind`: take the innermost handler iff its frame is STRICTLY ABOVE `bottom_frame`
+(the frame count at which native code re-entered the interpreter; `unwrap_or(0)` in normal mode):
+`exception_handler.call_frame_depth() > bottom_frame` (regenerated as `Gen.unwindBottomCompare`).
+A handler at or below it belongs to the caller of the native: the unwind stops and the native
+returns the error.  Otherwise mark the fiber unwinding (`pause_unwind`), point the handler's frame
+at the catch offset and reset `stack_top` to `frame.stack_start + slot_depth`.  Frames are NOT
+truncated here (that is `finish_unwind`).  (`frames[depth - 1]` out of range is the
+`debug_assert!`/index panic.) -/
 def Fiber.stackUnwind (f : Fiber) (bottom : Option Nat) : UnwindResult × Fiber :=
   match f.handlers with
   | [] =>
@@ -137,8 +141,7 @@ def Fiber.stackUnwind (f : Fiber) (bottom : Option Nat) : UnwindResult × Fiber 
     | some _ => (.unwindStopped, f)
     | none => (.unhandled, f)
   | h :: _ =>
-    if bottom.getD 0 ≤ h.frameDepth then
-      if h.frameDepth = 0 then (.panic, f) else
+    if bottom.getD 0 < h.frameDepth then
       match f.frames[h.frameDepth - 1]? with
       | none => (.panic, f)
       | some fr =>
@@ -148,6 +151,16 @@ def Fiber.stackUnwind (f : Fiber) (bottom : Option Nat) : UnwindResult × Fiber 
                    cur := h.frameDepth - 1
                    stack := setTop (fr.start + h.slotDepth) f.stack })
     else (.unwindStopped, f)
+
+/-- how the regenerated comparison operator of `Fiber::stack_unwind` reads: `depth <op> bottom` -/
+def compareOp : String → Nat → Nat → Bool
+  | ">", a, b => decide (a > b)
+  | ">=", a, b => decide (a ≥ b)
+  | "==", a, b => decide (a = b)
+  | "<=", a, b => decide (a ≤ b)
+  | "<", a, b => decide (a < b)
+  | "!=", a, b => decide (a ≠ b)
+  | _, _, _ => false
 
 /-- `Vm::store_ip`: save `vm.ip` into the current frame -/
 def Fiber.storeIp (f : Fiber) : Fiber :=
@@ -167,6 +180,26 @@ def Fiber.raise (f : Fiber) (mode : Option Nat) : UnwindResult × Fiber :=
   match f.storeIp.stackUnwind mode with
   | (.potentiallyHandled, f2) => (.potentiallyHandled, f2.loadIp)
   | r => r
+
+/-- `Vm::run_fun` / `run_method` / `runtime_error` (`Gen.reentrySites`): native code re-enters the
+interpreter with `ExecutionMode::CallingNativeCode(self.fiber.frames().len())`, the frame count
+BEFORE the callee's frame is pushed. -/
+def Fiber.reentryDepth (f : Fiber) : Nat := f.frames.length
+
+/-- An error signalled in the innermost of a chain of nested `Vm::execute` loops.  `levels` are the
+`bottom_frame`s of the native re-entries that are on the host stack, innermost first (`[]` = only
+the outermost loop, `ExecutionMode::Normal`).  The innermost loop runs `Vm::stack_unwind` in its
+mode; on `UnwindStopped` that `execute` returns `RuntimeError`, `to_call_result` hands
+`Call::Err(error)` to the native, the native returns it (its `?`; assumption on laythe_lib),
+`call_native` does `set_error(error)` and the ENCLOSING loop unwinds in its own mode — the fiber is
+not touched in between (frames are only cut by `finish_unwind`).  Answers what the unwind found,
+the fiber, and the re-entries still on the host stack when it was found. -/
+def Fiber.raiseThrough (f : Fiber) : List Nat → UnwindResult × Fiber × List Nat
+  | [] => ((f.raise none).1, (f.raise none).2, [])
+  | b :: outer =>
+    match f.raise (some b) with
+    | (.unwindStopped, f') => f'.raiseThrough outer
+    | (r, f') => (r, f', b :: outer)
 
 /-- `Fiber::finish_unwind`: truncate the frames to the handler's depth, back to running. -/
 def Fiber.finishUnwind (f : Fiber) : Option Fiber :=
